@@ -26,6 +26,7 @@ def default_quick_also(i):
     if re.match(r"op\.(div|mul)\.(id|di)\.nv$", n): return ["C01", "C02"]
     if re.match(r"op\.(band|bior|bxor)\.bb$", n) or re.match(r"op\.(eq|lt)\.(ii|bb)$", n): return ["C01", "C02", "C05"]
     if re.match(r"fn\.(substr\.sii|substr\.si|chr\.i|hash\.si|int\.d|rtrim\.s|trim\.s|upper\.s|strpos\.ss|neg\.i|m_at\.Ti|m_at\.si)$", n): return ["C01", "C02", "C05", "C03", "C10", "C09"]
+    if n.startswith("fn.m_concat") or n.startswith("fn.m_count.s") or n.startswith("let.iterator"): return ["C05", "C01"]
     if n.startswith("capi.accessors"): return ["C01"]
     if n.startswith("store."): return ["C02", "C01"]
     if n.startswith("c07.begin.k1") or n.startswith("c07.begin.k3") or n.startswith("c07.begin.k5.c0"): return ["C15", "C01"]
